@@ -42,6 +42,7 @@ def run(ctx):
     c05.r52(ctx, api, api.func('filter_val'), api.func('filter_in'), api.func('filter_not_in'), api.func('_handle_np_array'))
     c05.r54(ctx, api)
     c05.r55(ctx, api)
+    c05.r57(ctx, api, 'R13.7')
     from . import c03
     c03.r313(ctx, ctx.repo['core'], 'R13.6')
     from . import callsigs as _cs
